@@ -8,14 +8,17 @@
 (* failed: an exception swallowed by the orchestrator, recorded by the H1   *)
 (* tap), an exit code, and the findings of the siblings.                    *)
 (* Requirement: every outcome ok, exit in {0,1}, termination, siblings'     *)
-(* findings equal to the baseline without the damaged file.                 *)
+(* findings equal to the baseline without the damaged file - both when the  *)
+(* directory is walked and when the files are listed explicitly with the    *)
+(* damaged file first or in the middle (r.siblings_same covers both runs).  *)
 (***************************************************************************)
 EXTENDS Naturals, Sequences, FiniteSets, TLC, Json
 
 CONSTANT MaxFaults
 
 Seeds == {"python", "typescript", "javascript", "rust", "script"}   \* script: extensionless, python shebang
-Ops == {"truncTiny", "truncQuarter", "truncHalf", "truncMost", "quoteFlood", "deleteToken", "dupToken", "dupLine",
+\* truncInParen: cut inside a construct that is open across lines (multi-line import, parameter list, use-group)
+Ops == {"truncTiny", "truncQuarter", "truncHalf", "truncMost", "truncInParen", "quoteFlood", "deleteToken", "dupToken", "dupLine",
         "openParen", "closeParen", "openBrace", "closeBracket", "openQuote", "openTriple",
         "bom", "crlf", "mixedEol", "latin1", "invalidUtf8", "nulBytes", "controlChars",
         "nestParens", "nestBlocks", "longLine", "longExpr", "manyLines",
